@@ -31,10 +31,13 @@ CE(p, v, f) == [p |-> p, v |-> v, f |-> f]
 RAt(r, j) == RSeed(r, j)
 
 GenCons(r, addrs, num, maskp) ==
-  LET el(j) == LET fr == RPick(RAt(r, 3 * j + 2), 4) IN
+  \* the constrained ADDRESS SET comes from a pool of 4 per (Seed, program) so that the driver's compiled
+  \* code is reused across cases; values and flags vary freely
+  LET pool == RPick(r, 4)
+      el(j) == LET fr == RPick(RAt(r, 3 * j + 2), 4) IN
                [p |-> addrs[j], v |-> RPick(RAt(r, 3 * j + 1), 3),
                 f |-> IF maskp THEN (CASE fr = 0 -> "F" [] fr = 1 -> "T" [] OTHER -> "-") ELSE "-",
-                take |-> RPick(RAt(r, 3 * j), 8) < num]
+                take |-> RPick(RSeed(Seed + pool, j), 8) < num]
   IN  SelectSeq([j \in 1..Len(addrs) |-> el(j)], LAMBDA c : c.take)
 
 \* selections over the static parts of the program's addresses
@@ -74,12 +77,17 @@ GenEdit(r, e, opname) ==
         [] opname = "indexregen"  -> Rq("index", 0, "honest", <<>>, GenSel(r4, p.subs[1]), RPick(r3, p.n), "regenerate")
         [] opname = "project"    -> Rq("project", 0, "honest", <<>>, GenSel(r3, p), 0, "")
         [] opname = "staticreq"  -> Rq("static", a, tg, GenCons(r3, AddrSeq(p), 3, FALSE), GenSel(r4, p), RPick(r4, 4), "")
+        [] opname = "assess"     -> Rq("assess", a, "honest", GenCons(r3, AddrSeq(p), IF RPick(r4, 3) = 0 THEN 5 ELSE 8, FALSE), NoSel, 0, "")
+        [] opname = "subtrace"   -> Rq("subtrace", 0, "honest", <<>>, NoSel, RPick(r3, 4), "")
         [] opname = "diffannotate" -> Rq("diffannotate", a, tg, GenCons(r3, AddrSeq(p), 3, FALSE), NoSel, 0, "")
         [] OTHER -> Rq(opname, 0, "honest", <<>>, NoSel, 0, "")
 
 OpAllowed(p, opname) ==
   CASE opname \in {"indexupdate", "indexregen"} -> p.k \in {"vmap", "scan"}
     [] opname = "staticreq" -> p.k = "static"
+    [] opname = "subtrace" -> LET L == IF p.k = "static" THEN p ELSE (IF p.subs = <<>> THEN p ELSE p.subs[1]) IN
+                              /\ L.k = "static" /\ p.k \in {"static", "vmap", "repeat", "scan", "mask", "dimap"}
+                              /\ \A j \in 1..Len(L.sites) : L.sites[j].callee.k \in {"dist", "static"}
     [] OTHER -> TRUE
 
 GenEdits(r, e, d) ==
